@@ -101,6 +101,13 @@ func c20Universes(level int) []c20Universe {
 		noID.files[i].Content = strings.Replace(noID.files[i].Content, fmt.Sprintf(`"$id":%q,`, ids[i]), "", 1)
 	}
 	us = append(us, noID)
+	// three documents with ids and one without: under mapping flags that do not mention it, the id-less document takes the defaults
+	{
+		u := mk("none/flat/third-without-id", flat, [4]J{{"a1": str, "ad": ref("#/$defs/ADef")}, {"b1": in}, {"c1": str, "cd": ref("#/$defs/CDef")}, {"d1": J{"type": "boolean"}}}, ownDefs, noExtra)
+		u.ids = []string{ids[0], ids[1], "", ids[3]}
+		u.files[2].Content = strings.Replace(u.files[2].Content, fmt.Sprintf(`"$id":%q,`, ids[2]), "", 1)
+		us = append(us, u)
+	}
 	if level >= 1 {
 		us = append(us, mk("star/flat", flat, [4]J{{"b": ref("b.json"), "c": ref("c.json"), "d": ref("d.json")}, {"b1": in}, {"c1": str}, {"d1": in}}, ownDefs, noExtra))
 		us = append(us, mk("defs-chain/flat", flat, [4]J{{"x": ref("b.json#/$defs/BDef")}, {"y": ref("c.json#/$defs/CDef")}, {"z": ref("d.json#/$defs/DDef")}, {"d1": in}}, ownDefs, noExtra))
@@ -284,6 +291,9 @@ func c20(ctx *Ctx) {
 		for _, mp := range maps {
 			if u.name == "same-def-name/no-id" && mp.name != "defaults-stdout" && mp.name != "one-file" {
 				continue // without ids only the defaults apply
+			}
+			if strings.HasSuffix(u.name, "/third-without-id") && mp.name != "defaults-stdout" && mp.name != "one-file" && mp.name != "own-files+root-type+unmapped" && mp.name != "output-only-mappings" {
+				continue // only the mappings that do not name the third document
 			}
 			if strings.HasPrefix(u.name, "same-basename") && mp.name != "two-packages" && mp.name != "each-own-package" {
 				// x/common.json and y/common.json both yield the type name Common: they must live in different packages
@@ -604,15 +614,24 @@ func c20CLI(ctx *Ctx, u c20Universe, name string, cfg genlab.Cfg, obs map[string
 	if ctx.Level == 0 {
 		perms = [][]int{perms[0], perms[5], perms[9], perms[14], perms[18], perms[23]}
 	}
-	for _, pm := range perms {
+	for pi, pm := range perms {
 		d, _ := os.MkdirTemp(ws.Dir("c20cli"), "r")
 		genlab.Materialise(d, u.files)
 		args := cfg.Flags()
 		for _, i := range pm {
 			args = append(args, u.files[i].Path)
 		}
-		r := genlab.RunCLI(bin, d, args, "", 60*time.Second)
 		st := obs[fmt.Sprint(pm)]
+		if pi%2 == 1 {
+			// every other order regenerates in place: the expected output files already exist and are longer than what will be written
+			for f := range st.raw {
+				if f != "-" {
+					os.MkdirAll(filepath.Dir(filepath.Join(d, f)), 0o755)
+					os.WriteFile(filepath.Join(d, f), []byte(strings.Repeat("// stale line of an earlier, longer output\n", 4000)), 0o644)
+				}
+			}
+		}
+		r := genlab.RunCLI(bin, d, args, "", 60*time.Second)
 		ctx.Run.Eval("cli|"+name+"|"+fmt.Sprint(pm), true)
 		ctx.Run.Count("cli_argument_orders", 1)
 		replay := map[string]any{"kind": "cli", "files": u.files, "args": args}
